@@ -39,6 +39,7 @@ class H:
         self.tag, self.opset = tag, opset
         self.nodes, self.inits, self.inputs, self.outputs = [], [], [], []
         self.out_types = {}  # fallback declarations for outputs whose type shape inference does not give
+        self.trust_inference = True  # False: onnx shape inference would read overridable defaults as constants; declare by hand
 
     def inp(self, name, dt, shape):
         self.inputs.append((name, dt, list(shape)))
@@ -66,13 +67,14 @@ class H:
             vi = {v.name: v for v in list(mi.graph.value_info) + list(mi.graph.output)}
             del m.graph.output[:]
             for n in self.outputs:
-                if n in self.out_types and not (n in vi and vi[n].type.tensor_type.HasField("shape")):
+                if n in self.out_types and (not self.trust_inference or not (n in vi and vi[n].type.tensor_type.HasField("shape"))):
                     m.graph.output.append(oh.make_tensor_value_info(n, *self.out_types[n]))
                 elif n in vi and vi[n].type.HasField("tensor_type"):
                     m.graph.output.append(vi[n])
                 else:
                     m.graph.output.append(oh.make_empty_tensor_value_info(n))
-            m.graph.value_info.extend([v for v in mi.graph.value_info])
+            if self.trust_inference:
+                m.graph.value_info.extend([v for v in mi.graph.value_info])
         except Exception:  # noqa: BLE001
             pass
         spec = [(n, int(dt), tuple(sh)) for n, dt, sh in self.inputs]
@@ -317,7 +319,9 @@ def hosts_expand():
     out = []
     # no_op_expand and expand_before_binary_op
     cases = [((2, 3), [2, 3]), ((2, 3), [1, 1]), ((2, 3), [3]), ((2, 3), [1]), ((3,), [2, 3]), ((1, 3), [2, 3]), ((2, 3), [1, 2, 3]),
-             ((3,), [1, 1, 3]), ((), [2]), ((1,), [1, 1]), ((2, 1), [2, 3]), ((0,), [0]), ((2, 3), [2, 1])]
+             ((3,), [1, 1, 3]), ((), [2]), ((1,), [1, 1]), ((2, 1), [2, 3]), ((0,), [0]), ((2, 3), [2, 1]),
+             # a target of LOWER rank than the input is aligned with the trailing axes (its dims may coincide with the leading ones)
+             ((3, 1), [3]), ((3, 3), [3]), ((3, 2), [3]), ((2, 3, 1), [2, 3]), ((2, 1, 2), [2, 1]), ((1, 3), [1]), ((3, 1), [1])]
     for xs, shp in cases:
         h = H(f"Expand x={list(xs)} shape={shp}")
         h.inp("x", F, xs)
@@ -1160,6 +1164,76 @@ def hosts_control_flow():
     return out
 
 
+def hosts_overridable_defaults():
+    """shape-like / control operands that are graph inputs WITH a default value (overridable initializers): the optimizer may not
+    treat the default as the value.  (C04's solver leg makes the override symbolic.)"""
+    out = []
+
+    def host(tag, build, opset=18):
+        h = H(f"overridable default: {tag}", opset=opset)
+        h.trust_inference = False
+        build(h)
+        out.append(h.build())
+
+    def reshape_same(h):
+        h.inp("x", F, (3, 2)); h.c("s", np.array([3, 2], dtype=np.int64), "input")
+        h.n("Reshape", ["x", "s"], "z"); h.out_types = {"z": (F, ["a", "b"])}; h.out("z")
+    host("Reshape(x[3,2], s={3,2})", reshape_same)
+
+    def shape_of_reshape(h):
+        h.inp("x", F, (2, 3)); h.c("s", np.array([3, 2], dtype=np.int64), "input")
+        h.n("Reshape", ["x", "s"], "r"); h.n("Shape", ["r"], "z"); h.out_types = {"z": (I64, [2])}; h.out("z")
+    host("Shape(Reshape(x[2,3], s={3,2}))", shape_of_reshape)
+
+    def expand_same(h):
+        h.inp("x", F, (2, 3)); h.c("s", np.array([2, 3], dtype=np.int64), "input")
+        h.n("Expand", ["x", "s"], "e"); h.n("Neg", ["e"], "z"); h.out_types = {"z": (F, ["a", "b"])}; h.out("z")
+    host("Expand(x[2,3], s={2,3})", expand_same)
+
+    def if_cond(h):
+        h.inp("x", F, (2,)); h.c("c", np.array(True), "input")
+        h.n("If", ["c"], "y", then_branch=_sub("then", [oh.make_node("Neg", ["x"], ["t"])], [("t", F, [2])]),
+            else_branch=_sub("else", [oh.make_node("Abs", ["x"], ["e"])], [("e", F, [2])]))
+        h.out_types = {"y": (F, [2])}; h.out("y")
+    host("If(c = True) Neg / Abs", if_cond)
+
+    def concat_target(h):
+        h.inp("x", F, (2, 3)); h.c("d", np.array([3], dtype=np.int64), "input"); h.c("m1", np.array([-1], dtype=np.int64))
+        h.n("Concat", ["d", "m1"], "t", axis=0); h.n("Reshape", ["x", "t"], "z"); h.out_types = {"z": (F, ["a", "b"])}; h.out("z")
+    host("Reshape(x, Concat(d={3}, [-1]))", concat_target)
+
+    def squeeze_axes(h):
+        h.inp("x", F, (1, 3, 1)); h.c("ax", np.array([0], dtype=np.int64), "input")
+        h.n("Squeeze", ["x", "ax"], "z"); h.out_types = {"z": (F, ["a", "b"])}; h.out("z")
+    host("Squeeze(x[1,3,1], axes={0})", squeeze_axes)
+
+    def dropout_flags(h):
+        h.inp("x", F, (2, 3)); h.c("r", np.array(0.0, dtype=np.float32), "input"); h.c("tm", np.array(False), "input")
+        h.n("Dropout", ["x", "r", "tm"], "z"); h.out_types = {"z": (F, [2, 3])}; h.out("z")
+    host("Dropout(x, ratio=0, training_mode=False)", dropout_flags)
+
+    def gather_index(h):
+        h.inp("x", F, (2, 3)); h.c("i", np.array([1], dtype=np.int64), "input")
+        h.n("Shape", ["x"], "s"); h.n("Gather", ["s", "i"], "z", axis=0); h.out_types = {"z": (I64, [1])}; h.out("z")
+    host("Gather(Shape(x), i={1})", gather_index)
+
+    def constant_of_shape(h):
+        h.c("s", np.array([2, 2], dtype=np.int64), "input")
+        h.n("ConstantOfShape", ["s"], "z"); h.out_types = {"z": (F, ["a", "b"])}; h.out("z")
+    host("ConstantOfShape(s={2,2})", constant_of_shape)
+
+    def cast_like(h):
+        h.inp("x", F, (2,)); h.c("w", np.array([1.5, 2.5], dtype=np.float32), "input")
+        h.n("Add", ["w", "w"], "w2"); h.n("Mul", ["x", "w2"], "z"); h.out_types = {"z": (F, [2])}; h.out("z")
+    host("Mul(x, Add(w, w)) with w overridable", cast_like)
+
+    def shape_of_default(h):
+        h.inp("x", F, (3,)); h.c("w", np.ones((2, 3), dtype=np.float32), "input")
+        h.n("Shape", ["w"], "z"); h.n("Relu", ["x"], "y"); h.out_types = {"z": (I64, [2]), "y": (F, [3])}; h.out("z", "y")
+    host("Shape(w) of an overridable w that is otherwise unused", shape_of_default)
+    return out
+
+
 def hosts_sequences():
     """the folder's sequence evaluators: SplitToSequence (1-D / scalar, constant / graph-input split, keepdims, axes), SequenceAt,
     ConcatFromSequence (new_axis), SequenceConstruct; at opsets 13, 17 and 18 (Split<num_outputs> and friends exist from 18 only)"""
@@ -1221,7 +1295,7 @@ FAMILIES = {
     "expand": hosts_expand, "reshape_family": hosts_reshape_family, "clip_relu_minmax": hosts_clip_relu_minmax,
     "hardswish": hosts_hardswish, "matmul_gemm": hosts_matmul_gemm, "conv": hosts_conv, "scatter": hosts_scatter,
     "control_flow": hosts_control_flow, "conv_integer": hosts_conv_integer, "shape_attrs": hosts_shape_attrs, "optional_inputs": hosts_optional_inputs,
-    "sequences": hosts_sequences,
+    "sequences": hosts_sequences, "overridable_defaults": hosts_overridable_defaults,
 }
 
 
@@ -1245,6 +1319,11 @@ def rule_models_for_optimizer(tier):
         out = []
         for fam, hs in by_fam.items():
             r.shuffle(hs)
-            out += hs if fam in ("control_flow", "optional_inputs") else hs[:60] if fam in ("shape_attrs", "sequences") else hs[:25]
+            if fam == "expand":
+                # the plain Expand hosts (one per input/target shape pair) are few and each is a different case of the folder's evaluator
+                plain = [h for h in hs if ": Expand x=" in h[2]]
+                out += plain + [h for h in hs if h not in plain][:15]
+                continue
+            out += hs if fam in ("control_flow", "optional_inputs", "overridable_defaults") else hs[:60] if fam in ("shape_attrs", "sequences") else hs[:25]
         return out
     return hosts
